@@ -262,9 +262,10 @@ SOAP_NS = "http://schemas.xmlsoap.org/wsdl/soap/"
 class CE(object):
     """element particle / global element declaration"""
     def __init__(self, name=None, ref=None, tref=None, anon=None, opt=False, multi=False,
-                 nillable=False, default=None, form=None):
+                 nillable=False, default=None, qualified=None):
         self.name, self.ref, self.tref, self.anon = name, ref, tref, anon
-        self.opt, self.multi, self.nillable, self.default, self.form = opt, multi, nillable, default, form
+        self.opt, self.multi, self.nillable, self.default = opt, multi, nillable, default
+        self.qualified = qualified          # local declarations only: the form the interface prescribes
 
 
 class CC(object):
@@ -384,10 +385,13 @@ class Plan(object):
             self.wsdl_shuffle = False
             self.local_wsdl_decl = False
             self.wsdl_default_tns = False
+            self.efd_flip = {}
             self.seed = 0
             return
         self.seed = rng.randrange(1 << 30)
         self.prefixes = rng.sample(self.PFX_POOL, nns)
+        if r() < 0.04:
+            self.prefixes[rng.randrange(nns)] = "xsi"     # legal, and what suds itself writes for XMLSchema-instance
         self.wsdl_pfx = rng.choice(["wsdl", "wsdl", "w", ""])
         self.soap_pfx = rng.choice(["soap", "soap", "s11", "wsoap"])
         self.xsd_pfx = rng.choice(["xsd", "xsd", "xs", "s", ""])
@@ -419,7 +423,11 @@ class Plan(object):
                 j = rng.randrange(i + 1, len(t.attrs) + 1)
                 self.agroups[(t.ns, t.name)] = (i, j)
         self.nblocks = [rng.choice([1, 1, 2, 3]) for _ in range(nns)]
-        self.block_of = {}         # filled lazily: decl key -> block index (stable per plan)
+        self.block_of = {}         # overrides: (ns, decl key) -> block index
+        # one later block of a namespace may state the opposite elementFormDefault and
+        # compensate with explicit form= attributes
+        self.efd_flip = dict((ns, rng.randrange(1, nb)) for ns, nb in enumerate(self.nblocks)
+                             if nb > 1 and r() < 0.15)
         self.shuffle = r() < 0.8
         # per (ns, block): own namespace as default namespace?  local prefix respellings?
         self.block_default = [[(r() < 0.3) for _ in range(3)] for _ in range(nns)]
@@ -442,6 +450,8 @@ class Plan(object):
             f.add("attribute-groups")
         if max(self.nblocks) > 1:
             f.add("split-blocks")
+        if self.efd_flip:
+            f.add("mixed-elementFormDefault")
         if self.shuffle:
             f.add("declaration-order")
         if self.wsdl_shuffle:
@@ -484,16 +494,12 @@ def build_ast(iface, plan):
     def conv_particle(p, t):
         if isinstance(p, F.Elem):
             tref, anon = conv_tref(p.tref, t.ns)
-            dflt_q = S.namespaces[t.ns][1]
             if p.name in plan.refs:
                 decls[p.ns].append((("element", p.name),
                                     CE(name=p.name, tref=tref, anon=anon, nillable=p.nillable, default=p.default)))
                 return CE(ref=(p.ns, p.name), opt=p.opt, multi=p.multi)
-            form = None
-            if p.qualified != dflt_q or plan.redundant:
-                form = p.qualified
             return CE(name=p.name, tref=tref, anon=anon, opt=p.opt, multi=p.multi, nillable=p.nillable,
-                      default=p.default, form=form)
+                      default=p.default, qualified=p.qualified)
         if isinstance(p, F.Any):
             return CAnyP()
         kids = [conv_particle(k, t) for k in p.kids]
@@ -531,11 +537,12 @@ class BlockCtx(object):
 
     def __init__(self, plan, iface, ns, b):
         self.plan, self.S, self.ns = plan, iface.S, ns
+        self.qual_default = iface.S.namespaces[ns][1] != (plan.efd_flip.get(ns) == b)
         self.X = plan.xsd_pfx
         self.local = {} if plan.baseline else dict(plan.block_local[ns][b])
         # a local respelling must not capture the XSD prefix of this block
         for j in list(self.local):
-            if self.local[j] == self.X or self.local[j] in ("xsd", "xs", "s") and self.X:
+            if self.local[j] == self.X:
                 del self.local[j]
         # two local spellings must differ
         seen = set()
@@ -599,8 +606,8 @@ def write_particle(c, p, ind):
             a += ' nillable="true"'
         if p.default is not None:
             a += ' default="%s"' % p.default
-        if p.form is not None:
-            a += ' form="%s"' % ("qualified" if p.form else "unqualified")
+        if p.qualified is not None and (p.qualified != c.qual_default or red):
+            a += ' form="%s"' % ("qualified" if p.qualified else "unqualified")
         if p.anon is not None:
             return "%s<%s%s>\n%s\n%s</%s>" % (ind, c.x("element"), a, write_type(c, p.anon, ind + "  "), ind, c.x("element"))
         return "%s<%s%s/>" % (ind, c.x("element"), a)
@@ -661,7 +668,7 @@ def split_blocks(iface, plan, decls):
         for key, d in ds:
             b = plan.block_of.get((ns, key))
             if b is None:
-                b = prng.randrange(nb)
+                b = random.Random("%d/%d/%s/%s" % ((plan.seed, ns) + key)).randrange(nb)
             blocks[min(b, nb - 1)].append((key, d))
         for b in range(nb):
             if plan.shuffle:
@@ -670,15 +677,10 @@ def split_blocks(iface, plan, decls):
             out.append((ns, b, blocks[b]))
     if plan.shuffle:
         # blocks of different namespaces may interleave; blocks of one namespace keep their order
-        tagged = list(out)
-        prng.shuffle(tagged)
-        order = {}
-        res = []
-        for ns, b, ds in tagged:
-            k = order.get(ns, 0)
-            order[ns] = k + 1
-            res.append([x for x in out if x[0] == ns and x[1] == k][0])
-        out = res
+        labels = [x[0] for x in out]
+        prng.shuffle(labels)
+        queues = dict((ns, [x for x in out if x[0] == ns]) for ns in set(labels))
+        out = [queues[ns].pop(0) for ns in labels]
     return out
 
 
@@ -695,7 +697,8 @@ def render(iface, plan):
     for ns, b, ds in blocks:
         c = BlockCtx(plan, iface, ns, b)
         uri, qual = S.namespaces[ns]
-        attrs = ['targetNamespace="%s"' % uri, 'elementFormDefault="%s"' % ("qualified" if qual else "unqualified")]
+        attrs = ['targetNamespace="%s"' % uri,
+                 'elementFormDefault="%s"' % ("qualified" if c.qual_default else "unqualified")]
         if plan.shuffle and prng.random() < 0.5:
             attrs.reverse()
         attrs += c.nsdecls()
@@ -785,8 +788,566 @@ def render(iface, plan):
 
 
 # ---------------------------------------------------------------------------
+# what a client exposes, canonicalised
+# ---------------------------------------------------------------------------
+
+def load_client(wsdl):
+    from . import sudsutil as U
+    try:
+        return U.client_from_wsdl(wsdl, nosend=True), None
+    except Exception as e:  # noqa
+        return None, "%s: %s" % (type(e).__name__, str(e)[:200])
+
+
+def type_id(iface, t):
+    """(namespace uri, name) of the resolved type of a schema object, 'anon'
+    for types this interface allows to be written anonymously."""
+    S = iface.S
+    try:
+        r = t.resolve()
+    except Exception as e:  # noqa
+        return ("!", type(e).__name__)
+    if r is t:
+        return ("anon", "")
+    ns = r.namespace()[1]
+    for i, (u, _) in enumerate(S.namespaces):
+        if u == ns and (i, r.name) in iface.anonymizable:
+            return ("anon", "")
+    return (ns, r.name)
+
+
+def obs_param(iface, pd):
+    name, t = pd[0], pd[1]
+    anc = pd[2] if len(pd) > 2 else []
+    try:
+        return (name, t.namespace()[1], bool(t.form_qualified), type_id(iface, t),
+                bool(t.optional() or any(a.optional() for a in anc)), bool(t.multi_occurrence()),
+                bool(t.nillable), any(a.choice() for a in anc), t.default)
+    except Exception as e:  # noqa
+        return (name, "!", type(e).__name__)
+
+
+def obs_service(iface, client):
+    out = []
+    for sd in client.sd:
+        for port, methods in sd.ports:
+            ms = []
+            for mname, pdefs in methods:
+                m = port.method(mname)
+                ms.append((mname, bool(m.soap.input.body.wrapped), m.soap.action,
+                           [obs_param(iface, pd) for pd in pdefs]))
+            out.append((sd.service.name, port.name, sorted(ms)))
+    return sorted(out)
+
+
+def canon_value(v, kept):
+    import suds.sudsobject
+    if v is None:
+        return None
+    if isinstance(v, suds.sudsobject.Object):
+        cls = v.__class__.__name__
+        return ("obj", cls if cls in kept else "-", [(k, canon_value(getattr(v, k), kept)) for k in v.__keylist__])
+    if isinstance(v, list):
+        return ("list", [canon_value(x, kept) for x in v])
+    return ("leaf", type(v).__name__, str(v))
+
+
+def obs_factory(iface, client, t, kept):
+    try:
+        o = client.factory.create("{%s}%s" % (iface.S.namespaces[t.ns][0], t.name))
+        return canon_value(o, kept)
+    except Exception as e:  # noqa
+        return ("!", type(e).__name__, str(e)[:100])
+
+
+def gen_iface(rng):
+    """An abstract interface of the shared family: schema + operations (one
+    wrapped document/literal operation for most types, with or without a
+    response type; one bare two-part operation; one rpc/literal operation)."""
+    from . import family as F
+    S = F.gen_schema(rng)
+    ops = []
+    for k, t in enumerate(S.types):
+        if k == 0 or rng.random() < 0.6:
+            out = rng.choice(S.types) if rng.random() < 0.5 else None
+            ops.append(F.Op("op%d" % k, "wrapped", in_type=(t.ns, t.name),
+                            out_type=(out.ns, out.name) if out else None))
+    tb, tr = rng.choice(S.types), rng.choice(S.types)
+    b1, b2 = rng.choice(F.BUILTINS), rng.choice(F.BUILTINS)
+    ops.append(F.Op("bare0", "bare", parts=[("g1", ("n", tb.ns, tb.name)), ("g2", ("b", b1))]))
+    ops.append(F.Op("rpc0", "rpc", parts=[("x", ("n", tr.ns, tr.name)), ("y", ("b", b2))],
+                    body_ns=rng.randrange(len(S.namespaces))))
+    return Iface(S, ops)
+
+
+def strip_anon(iface, v):
+    """Values of types that may be written anonymously are passed as plain
+    dicts (an anonymous type has no name to build a factory object from)."""
+    from . import family as F
+    if isinstance(v, list):
+        return [strip_anon(iface, x) for x in v]
+    if isinstance(v, F.VObj):
+        ty = v.ty if (v.ty is None or tuple(v.ty) not in iface.anonymizable) else None
+        return F.VObj(ty, [(k, strip_anon(iface, x)) for k, x in v.fields])
+    return v
+
+
+def gen_args(rng, iface, t):
+    from . import family as F
+    S = iface.S
+    obj = strip_anon(iface, F.gen_object(rng, S, t, depth=0, typed=False))
+    given = dict((k, v) for k, v in obj.fields if not k.startswith("_"))
+    params = [p for p, _ in S.flat(t) if isinstance(p, F.Elem)]
+    return given, [given.get(p.name) for p in params]
+
+
+def request(client, port, opname, args, kwargs):
+    """-> ('ok', [body child nodes], raw) | ('TypeNotFound'|'error', text)"""
+    import suds
+    from . import sudsutil as U
+    from . import family as F
+    try:
+        ctx = getattr(client.service[port], opname)(*args, **kwargs)
+        env = U.expat_parse(ctx.envelope)
+        if env.name != "Envelope" or env.ns != F.SOAPENV:
+            return ("error", "root is not a SOAP envelope")
+        body = env.find("Body", F.SOAPENV)
+        if body is None:
+            return ("error", "no Body")
+        return ("ok", body.elements(), ctx.envelope.decode("utf-8", "replace"))
+    except suds.TypeNotFound as e:
+        return ("TypeNotFound", repr(e))
+    except Exception as e:  # noqa
+        return ("error", "%s: %s" % (type(e).__name__, str(e)[:200]))
+
+
+def reply_xml(iface, op, v):
+    """The reply document the abstract interface prescribes for value `v` (a
+    VObj of op.out_type), written with fixed prefixes."""
+    from . import family as F
+    from xml.sax.saxutils import escape, quoteattr
+    S = iface.S
+
+    def emit(e, val, out):
+        tag = ("n%d:%s" % (e.ns, e.name)) if e.qualified else e.name
+        if isinstance(val, list):
+            for x in val:
+                emit_one(e, tag, x, out)
+        else:
+            emit_one(e, tag, val, out)
+
+    def emit_one(e, tag, val, out):
+        if val is None:
+            if e.nillable:
+                out.append('<%s xsi:nil="true"/>' % tag)
+            return
+        if isinstance(val, tuple):
+            out.append("<%s>%s</%s>" % (tag, escape(val[2]), tag))
+            return
+        declared = S.type(e.tref[1], e.tref[2])
+        real = S.type(*val.ty) if val.ty else declared
+        a = ""
+        if real is not declared:
+            a = ' xsi:type="n%d:%s"' % (real.ns, real.name)
+        out.append(obj_xml(tag, a, real, val))
+
+    def obj_xml(tag, a, real, val):
+        fields = dict(val.fields)
+        kids = []
+        for p, _ in S.flat(real):
+            if isinstance(p, F.Elem) and p.name in fields:
+                emit(p, fields[p.name], kids)
+        for at in S.all_attrs(real):
+            if "_" + at.name in fields:
+                a += " %s=%s" % (at.name, quoteattr(fields["_" + at.name][2]))
+        return "<%s%s>%s</%s>" % (tag, a, "".join(kids), tag)
+
+    t = S.type(*op.out_type)
+    nsd = " ".join('xmlns:n%d="%s"' % (i, u) for i, (u, _) in enumerate(S.namespaces))
+    body = obj_xml("n0:%sResponse" % op.name, "", t, v)
+    return ('<?xml version="1.0" encoding="UTF-8"?><env:Envelope xmlns:env="%s" xmlns:xsi="%s" %s>'
+            '<env:Body>%s</env:Body></env:Envelope>' % (F.SOAPENV, F.XSI, nsd, body)).encode("utf-8")
+
+
+def decode_reply(client, port, opname, reply, kept):
+    try:
+        r = getattr(client.service[port], opname)(__inject={"reply": reply})
+        return canon_value(r, kept)
+    except Exception as e:  # noqa
+        return ("!", type(e).__name__, str(e)[:120])
+
+
+# ---------------------------------------------------------------------------
+# (3) the rendering-independence run
+# ---------------------------------------------------------------------------
+
+PRE_R = "From SV Require Import Lib.Base Fam.Schema C01.Marshal C01.Guard C01.Styles C07.Render."
+
+KNOWN_A = "C07:split-block-global-element-not-top-level"
+KNOWN_B = "C07:xsi-prefix-bound-to-other-namespace"
+KNOWN_C = "C07:same-namespace-blocks-elementFormDefault"
+
+
+def toggles(plan, iface):
+    """(finding key, what, repaired plan) candidates: the plan with ONE feature
+    switched off.  Known classes first, then the generic syntactic features."""
+    import copy
+
+    def mod(f):
+        q = copy.copy(plan)
+        q.block_of = dict(plan.block_of)
+        f(q)
+        return q
+    out = []
+    if max(plan.nblocks) > 1:
+        def gf(q):
+            for ns, ds in enumerate(build_ast(iface, q)):
+                for key, d in ds:
+                    if key[0] == "element":
+                        q.block_of[(ns, key)] = 0
+        out.append((KNOWN_A, "global element declared in a later <schema> block of its namespace", mod(gf)))
+    if plan.efd_flip:
+        out.append((KNOWN_C, "blocks of one namespace with different elementFormDefault",
+                    mod(lambda q: setattr(q, "efd_flip", {}))))
+    if "xsi" in plan.prefixes:
+        out.append((KNOWN_B, "a target namespace spelled with the prefix xsi",
+                    mod(lambda q: setattr(q, "prefixes", [x if x != "xsi" else "tns9" for x in plan.prefixes]))))
+    generic = [
+        ("anonymous-types", bool(plan.anon), lambda q: setattr(q, "anon", set())),
+        ("element-refs", bool(plan.refs), lambda q: setattr(q, "refs", set())),
+        ("groups", bool(plan.groups or plan.subgroups),
+         lambda q: (setattr(q, "groups", set()), setattr(q, "subgroups", {}))),
+        ("attribute-groups", bool(plan.agroups), lambda q: setattr(q, "agroups", {})),
+        ("split-blocks", max(plan.nblocks) > 1,
+         lambda q: (setattr(q, "nblocks", [1] * len(plan.nblocks)), setattr(q, "efd_flip", {}))),
+        ("declaration-order", plan.shuffle, lambda q: setattr(q, "shuffle", False)),
+        ("wsdl-order", plan.wsdl_shuffle, lambda q: setattr(q, "wsdl_shuffle", False)),
+        ("default-namespace", True,
+         lambda q: (setattr(q, "block_default", [[False] * 3 for _ in plan.nblocks]),
+                    setattr(q, "wsdl_default_tns", False),
+                    setattr(q, "wsdl_pfx", q.wsdl_pfx or "wsdl"),
+                    setattr(q, "xsd_pfx", q.xsd_pfx or "xsd"))),
+        ("prefix-names", True,
+         lambda q: (setattr(q, "prefixes", ["t%d" % i for i in range(len(plan.prefixes))]),
+                    setattr(q, "block_local", [[{} for _ in range(3)] for _ in plan.nblocks]),
+                    setattr(q, "local_wsdl_decl", False))),
+        ("redundant-attributes", plan.redundant, lambda q: setattr(q, "redundant", False)),
+    ]
+    for name, present, f in generic:
+        if present:
+            out.append(("C07:rendering-" + name, "rendering feature: " + name, mod(f)))
+    return out
+
+
+def attribute(iface, plan, observe, expected):
+    """Which single feature of `plan`, once switched off, makes `observe(client)`
+    equal `expected` again?  -> (key, what)"""
+    for key, what, q in toggles(plan, iface):
+        try:
+            wsdl, _ = render(iface, q)
+            c, err = load_client(wsdl)
+            got = ("load-error", err) if c is None else observe(c)
+        except Exception as e:  # noqa
+            got = ("harness", repr(e))
+        if got == expected:
+            return key, what
+    return "C07:rendering-unattributed", "no single rendering feature explains it"
+
+
+class ObsEnc(object):
+    """canon_value / parameter tuples -> Coq `obs` literals over an interner."""
+
+    def __init__(self, S, I):
+        self.S, self.I = S, I
+
+    def nsid(self, uri):
+        from . import family as F
+        return F.ns_to_id(self.S, uri)
+
+    def value(self, v, keyed_attr=False):
+        I = self.I
+        if v is None:
+            return "(ON %s [])" % cN(I("#none"))
+        if v[0] == "obj":
+            kids = []
+            for k, x in v[2]:
+                if keyed_attr:
+                    isattr = k.startswith("_")
+                    tag = 2 * I(k[1:] if isattr else k) + (1 if isattr else 0)
+                else:
+                    tag = I("#key:" + k)
+                kids.append("(ON %s [%s])" % (cN(tag), self.value(x)))
+            return "(ON %s %s)" % (cN(I("#obj:" + v[1])), clist(kids, "obs"))
+        if v[0] == "list":
+            return "(ON %s %s)" % (cN(I("#list")), clist([self.value(x) for x in v[1]], "obs"))
+        if v[0] == "leaf":
+            return "(ON %s [])" % cN(I("#leaf:%s:%s" % (v[1], v[2])))
+        return "(ON %s [])" % cN(I("#other:" + repr(v)))
+
+    def param(self, p):
+        I = self.I
+        if len(p) != 9:
+            return "(ON %s [])" % cN(I("#error:" + repr(p)))
+        name, ns, qual, ty, opt, multi, nil, choice, dflt = p
+        flags = (1 if qual else 0) + (2 if opt else 0) + (4 if multi else 0) + (8 if nil else 0) + (16 if choice else 0)
+        if ty[0] == "anon":
+            tns, tnm = 0, 0
+        elif ty[0] == "!":
+            tns, tnm = 998, I("#error:" + ty[1])
+        else:
+            tns, tnm = self.nsid(ty[0]), I(ty[1])
+        return "(ON %s [ON %s []; ON %s []; ON %s []; ON %s []; ON %s []])" % (
+            cN(I(name)), cN(self.nsid(ns)), cN(flags), cN(tns), cN(tnm),
+            cN(I("text:" + dflt) if dflt is not None else 0))
+
+
+def run_render(ck, unproved):
+    from . import family as F
+    from . import sudsutil as U  # noqa
+    rng = ck.rng
+    n_ifaces = 36 if ck.tier == "quick" else 400
+    K = 4 if ck.tier == "quick" else 6
+    reps = 2 if ck.tier == "quick" else 4
+    W, B, R, PC, FC, EC = [], [], [], [], [], []       # (coq case, meta)
+    deviations = {}                                     # finding key -> first payload
+    feature_count = {}
+
+    def deviation(iface, plan, wsdl, label, observe, expected, got, detail):
+        """A rendering whose client behaves differently from the baseline client."""
+        key, what = attribute(iface, plan, observe, expected)
+        ck.count("deviating-renderings")
+        if key not in deviations:
+            deviations[key] = {"part": "render", "observable": label, "class": what,
+                               "rendering_features": sorted(plan.features()), "wsdl": wsdl.decode("utf-8"),
+                               "baseline_wsdl": detail["baseline_wsdl"], "baseline": repr(expected)[:3000],
+                               "this_rendering": repr(got)[:3000], "input": detail.get("input")}
+        return key
+
+    for si in range(n_ifaces):
+        iface = gen_iface(rng)
+        S = iface.S
+        kept = set(t.name for t in S.types if (t.ns, t.name) not in iface.anonymizable)
+        base = Plan(rng, iface, baseline=True)
+        wsdl0, _ = render(iface, base)
+        c0, err = load_client(wsdl0)
+        if c0 is None:
+            ck.failing_input("C07:baseline-load", "the plain rendering of a generated interface cannot be loaded: " + err,
+                             {"part": "render", "wsdl": wsdl0.decode("utf-8"), "error": err})
+            continue
+        rend = [(base, wsdl0, c0)]
+        for k in range(K):
+            plan = Plan(rng, iface)
+            wsdl, _ = render(iface, plan)
+            U.expat_parse(wsdl)                  # the renderer must write well-formed documents
+            c, err = load_client(wsdl)
+            for f in plan.features():
+                feature_count[f] = feature_count.get(f, 0) + 1
+            if c is None:
+                key = deviation(iface, plan, wsdl, "load", lambda cl: "loaded", "loaded", ("load-error", err),
+                                {"baseline_wsdl": wsdl0.decode("utf-8")})
+                ck.failing_input(key, "a rendering of an interface that loads when written plainly fails to load: "
+                                 + err, deviations[key])
+                ck.seen(("load", si, k))
+                continue
+            rend.append((plan, wsdl, c))
+        detail = {"baseline_wsdl": wsdl0.decode("utf-8")}
+
+        def observe_all(label, observe, input_=None):
+            """-> list of observations (baseline first); deviating renderings are
+            attributed to a finding class."""
+            res, keys = [], []
+            for j, (plan, wsdl, c) in enumerate(rend):
+                try:
+                    res.append(observe(c))
+                except Exception as e:  # noqa
+                    res.append(("harness-error", repr(e)))
+            for j in range(1, len(rend)):
+                if res[j] != res[0]:
+                    d = dict(detail)
+                    d["input"] = input_
+                    keys.append(deviation(iface, rend[j][0], rend[j][1], label, observe, res[0], res[j], d))
+            return res, keys
+
+        # ---- service definition: ports, methods, wrapped flag, parameter definitions
+        I = F.new_interner()
+        P = F.CoqPrinter(S, I)
+        E = ObsEnc(S, I)
+        sds, keys = observe_all("service-definition", lambda c: obs_service(iface, c))
+        ck.seen(("sd", si))
+        ck.count("service-definitions")
+
+        def sd_obs(sd):
+            return "(ON 0 %s)" % clist(
+                ["(ON %s %s)" % (cN(I("#port:" + pn)), clist(
+                    ["(ON %s [ON %s []; ON %s []; ON 0 %s])" % (cN(I(m)), cN(1 if w else 0), cN(I("#" + act)),
+                                                               clist([E.param(p) for p in ps], "obs"))
+                     for m, w, act, ps in ms], "obs")) for _, pn, ms in sd], "obs")
+        EC.append(("(mkEC %s)" % clist([sd_obs(x) for x in sds], "obs"), ("service-definition", keys, si)))
+        for op in iface.ops:
+            if op.style != "wrapped":
+                continue
+            pls = []
+            for sd in sds:
+                ps = [m[3] for _, pn, ms in sd if pn == "port_document" for m in ms if m[0] == op.name]
+                pls.append(clist([E.param(p) for p in (ps[0] if ps else [])], "obs"))
+            PC.append(("(mkPC %s (%s, %s) %s)" % (P.schema(), cN(op.in_type[0] + 1), cN(I(op.in_type[1])),
+                                                   clist(pls, "list obs")),
+                       ("params " + op.name, keys if any(x != pls[0] for x in pls) else [], si)))
+            ck.seen(("params", si, op.name))
+            ck.count("parameter-lists")
+        # ---- factory objects of every type that keeps its name
+        for t in S.types:
+            if (t.ns, t.name) in iface.anonymizable:
+                continue
+            I = F.new_interner()
+            P = F.CoqPrinter(S, I)
+            E = ObsEnc(S, I)
+            fs, keys = observe_all("factory.create(%s)" % t.name, lambda c: obs_factory(iface, c, t, kept))
+            FC.append(("(mkFC %s (%s, %s) %s)" % (P.schema(), cN(t.ns + 1), cN(I(t.name)),
+                                                   clist([E.value(f, keyed_attr=True) if (f and f[0] == "obj")
+                                                          else E.value(f) for f in fs], "obs")),
+                       ("factory " + t.name, keys, si)))
+            ck.seen(("factory", si, t.name))
+            ck.count("factory-objects")
+        # ---- requests
+        for op in iface.ops:
+            for rep in range(reps):
+                I = F.new_interner()
+                P = F.CoqPrinter(S, I)
+                xstq = rng.random() < 0.8
+                if op.style == "wrapped":
+                    t = S.type(*op.in_type)
+                    given, args = gen_args(rng, iface, t)
+
+                    def req(c, given=given, op=op, I=I, xstq=xstq):
+                        c.set_options(xstq=xstq)
+                        kwargs = dict((n, F.to_python(c, S, v)) for n, v in given.items())
+                        r = request(c, "port_document", op.name, (), kwargs)
+                        if r[0] == "ok":
+                            return "(IOk %s)" % F.node_to_coq(S, I, r[1][0]) if len(r[1]) == 1 else "IOther"
+                        return "ITypeNotFound" if r[0] == "TypeNotFound" else "IOther"
+                    rs, keys = observe_all("request " + op.name, req, repr(given))
+                    wrapper = "(mkE %s %s true (TNamed %s %s) false false false None)" % (
+                        cN(I(op.name)), cN(1), cN(t.ns + 1), cN(I(t.name)))
+                    W.append(("(mkRW %s %s %s %s %s)" % (P.schema(), cbool(xstq), wrapper,
+                                                          clist([P.value(v) for v in args], "value"),
+                                                          clist(rs, "impl_res")),
+                              ("request " + op.name, keys, si, repr(given))))
+                    ck.seen(("w", si, op.name, rep), nontrivial=any(isinstance(v, (F.VObj, list)) for v in args))
+                    ck.count("requests-wrapped")
+                elif op.style == "bare":
+                    (g1, tr1), (g2, tr2) = op.parts
+                    v1 = strip_anon(iface, F.gen_value(rng, S, F.Elem(g1, 0, True, tr1), depth=1))
+                    v2 = ("leaf",) + F.gen_leaf(rng, tr2[1])
+
+                    def req(c, v1=v1, v2=v2, I=I, xstq=xstq):
+                        c.set_options(xstq=xstq)
+                        r = request(c, "port_document", "bare0", (F.to_python(c, S, v1), F.to_python(c, S, v2)), {})
+                        if r[0] == "ok":
+                            return "(INodes %s)" % clist([F.node_to_coq(S, I, n) for n in r[1]], "xnode")
+                        return "INTypeNotFound" if r[0] == "TypeNotFound" else "INOther"
+                    rs, keys = observe_all("request bare0", req, repr((v1, v2)))
+                    parts = clist(["(global_elem %s %s %s)" % (cN(I(g1)), cN(1), P.tref(tr1)),
+                                   "(global_elem %s %s TBuiltin)" % (cN(I(g2)), cN(1))], "edecl")
+                    B.append(("(mkRB %s %s %s %s %s)" % (P.schema(), cbool(xstq), parts,
+                                                          clist([P.value(v1), P.value(v2)], "value"),
+                                                          clist(rs, "impl_nodes")),
+                              ("request bare0", keys, si, repr((v1, v2)))))
+                    ck.seen(("b", si, rep))
+                    ck.count("requests-bare")
+                else:
+                    (px, trx), (py, try_) = op.parts
+                    vx = strip_anon(iface, F.gen_value(rng, S, F.Elem(px, 0, False, trx, opt=True), depth=1))
+                    vy = None if rng.random() < 0.2 else ("leaf",) + F.gen_leaf(rng, try_[1])
+                    style = rng.randrange(3)
+
+                    def req(c, vx=vx, vy=vy, I=I, xstq=xstq, style=style):
+                        c.set_options(xstq=xstq)
+                        pa = (F.to_python(c, S, vx), F.to_python(c, S, vy))
+                        if style == 0:
+                            a, kw = pa, {}
+                        elif style == 1:
+                            a, kw = (), {"x": pa[0], "y": pa[1]}
+                        else:
+                            a, kw = (pa[0],), {"y": pa[1]}
+                        r = request(c, "port_rpc", "rpc0", a, kw)
+                        if r[0] == "ok":
+                            return "(IOk %s)" % F.node_to_coq(S, I, r[1][0]) if len(r[1]) == 1 else "IOther"
+                        return "ITypeNotFound" if r[0] == "TypeNotFound" else "IOther"
+                    rs, keys = observe_all("request rpc0", req, repr((vx, vy)))
+                    parts = clist(["(part_elem %s %s)" % (cN(I(px)), P.tref(trx)),
+                                   "(part_elem %s TBuiltin)" % cN(I(py))], "edecl")
+                    R.append(("(mkRR %s %s %s %s %s %s %s)" % (P.schema(), cbool(xstq), cN(op.body_ns + 1),
+                                                                cN(I("rpc0")), parts,
+                                                                clist([P.value(vx), P.value(vy)], "value"),
+                                                                clist(rs, "impl_res")),
+                              ("request rpc0", keys, si, repr((vx, vy)))))
+                    ck.seen(("r", si, rep))
+                    ck.count("requests-rpc")
+                # ---- decoded injected reply
+                if op.style == "wrapped" and op.out_type is not None:
+                    I = F.new_interner()
+                    E = ObsEnc(S, I)
+                    v = strip_anon(iface, F.gen_object(rng, S, S.type(*op.out_type), depth=0, typed=False))
+                    rx = reply_xml(iface, op, v)
+                    ds, keys = observe_all("reply " + op.name,
+                                           lambda c, op=op, rx=rx: decode_reply(c, "port_document", op.name, rx, kept),
+                                           rx.decode("utf-8"))
+                    EC.append(("(mkEC %s)" % clist([E.value(d) for d in ds], "obs"),
+                               ("reply " + op.name, keys, si, rx.decode("utf-8"))))
+                    ck.seen(("reply", si, op.name, rep))
+                    ck.count("replies-decoded")
+                    if len(ck.samples) < 5 and rep == 0 and si == 0:
+                        ck.sample({"part": "render", "reply": rx.decode("utf-8")[:600], "decoded": repr(ds[0])[:400]})
+        if si == 0:
+            ck.sample({"part": "render", "features_of_rendering_1": sorted(rend[1][0].features()) if len(rend) > 1 else [],
+                       "wsdl_of_rendering_1": (rend[1][1] if len(rend) > 1 else wsdl0).decode("utf-8")[:1800]})
+
+    for f, n in sorted(feature_count.items()):
+        ck.count("renderings-with-" + f, n)
+
+    def judge(label, cases, ctype, spec_ok, agrees=None, shard=40):
+        if not cases:
+            return
+        preds = [spec_ok] + ([agrees] if agrees else [])
+        res = ck.run_cases(label, PRE_R, ctype, [c for c, _ in cases], preds, shard=shard)
+        bad = set(res[spec_ok])
+        for i in sorted(bad):
+            meta = cases[i][1]
+            keys = meta[1]
+            if keys:
+                for key in keys:
+                    ck.failing_input(key, "two renderings of one abstract interface behave differently (%s): %s"
+                                     % (meta[0], deviations[key]["class"]), deviations[key])
+            else:
+                ck.failing_input("C07:%s-not-by-the-rules" % label,
+                                 "every rendering agrees, but %s is not what the XSD/WSDL rules assign to the "
+                                 "abstract interface" % meta[0],
+                                 {"part": "render", "observable": meta[0], "case": cases[i][0],
+                                  "input": meta[3] if len(meta) > 3 else None})
+        # a deviation seen in Python that Coq's spec did not fail on would be a hole in the spec
+        for i, (c, meta) in enumerate(cases):
+            if meta[1] and i not in bad:
+                ck.unproved("the Coq spec %s accepted renderings that differ (%s)" % (spec_ok, meta[0]),
+                            {"case": c})
+        if agrees:
+            dis = [i for i in res[agrees] if i not in bad]
+            if dis:
+                unproved.append({"correspondence": agrees, "count": len(dis),
+                                 "first": {"observable": cases[dis[0]][1][0], "case": cases[dis[0]][0]}})
+
+    judge("wrapped", W, "rwcase", "render_wrapped_spec_ok", "render_wrapped_agrees")
+    judge("bare", B, "rbcase", "render_bare_spec_ok", "render_bare_agrees")
+    judge("rpc", R, "rrcase", "render_rpc_spec_ok", "render_rpc_agrees")
+    judge("params", PC, "pcase", "params_spec_ok")
+    judge("factory", FC, "fcase", "factory_spec_ok")
+    judge("observed", EC, "ecase", "equal_spec_ok")
+
+
+# ---------------------------------------------------------------------------
 
 def run(ck):
+    import time
     common.force_repo_path()
     ck.trusted = [
         "Coq 8.16.1 kernel + vm_compute; no axioms declared",
@@ -798,8 +1359,14 @@ def run(ck):
     ck.notes = []
     proof_ok = ck.prove(THEOREMS)
     unproved = []
+    t0 = time.time()
     run_depsort(ck, unproved)
+    t1 = time.time()
     run_qualify(ck, unproved)
+    t2 = time.time()
+    run_render(ck, unproved)
+    t3 = time.time()
+    ck.extra["wall_by_part_s"] = {"depsort": round(t1 - t0, 1), "qualify": round(t2 - t1, 1), "render": round(t3 - t2, 1)}
     ck.rule = ""
     if proof_ok is False:
         ck.unproved("proof obligation of C07 no longer checks: " + ck.proof_log[-1500:], {"log": ck.proof_log[-3000:]})
